@@ -22,11 +22,12 @@ TOL = 1e-8
 
 
 class _TD:
-    def __init__(self, s):
-        self.s = s
+    """duration with the attributes of datetime.timedelta: days + seconds (+ microseconds, kept inside `seconds` here)"""
+    def __init__(self, s, days=0):
+        self.days, self.seconds, self.microseconds = days, s, 0
 
     def total_seconds(self):
-        return self.s
+        return self.days * 86400 + self.seconds
 
 
 def _mod(env):
@@ -173,7 +174,7 @@ def velocities_case(prograde):
 
 # --------------------------------------------------------------------------- (c) the time-of-flight equation
 def time_eq_case(sign):
-    ins = [("nr0", "pos"), ("nr1", "pos"), ("A", "real"), ("mu", "pos"), ("dt", "pos")] + ([("z", "pos")] if sign else [])
+    ins = [("nr0", "pos"), ("nr1", "pos"), ("A", "real"), ("mu", "pos"), ("dt", "pos"), ("days", "int")] + ([("z", "pos")] if sign else [])
 
     def zval(env, v):
         return 0 if sign == 0 else (v["z"] if sign > 0 else -v["z"])
@@ -182,7 +183,7 @@ def time_eq_case(sign):
         lam = _mod(env)
         z = zval(env, v)
         return {"C": lam._C(z), "S": lam._S(z), "y": lam._y(v["nr0"], v["nr1"], v["A"], z),
-                "F": lam._F(v["nr0"], v["nr1"], v["A"], z, _TD(v["dt"]), v["mu"])}
+                "F": lam._F(v["nr0"], v["nr1"], v["A"], z, dur(env, v), v["mu"])}
 
     def ref(env, v, out):
         z = zval(env, v)
@@ -196,12 +197,18 @@ def time_eq_case(sign):
             C, S = env.frac(1, 2), env.frac(1, 6)
         y = v["nr0"] + v["nr1"] + v["A"] * (z * S - 1) / env.sqrt(C)
         q = y / C
-        F = q * env.sqrt(q) * S + v["A"] * env.sqrt(y) - env.sqrt(v["mu"]) * v["dt"]
+        F = q * env.sqrt(q) * S + v["A"] * env.sqrt(y) - env.sqrt(v["mu"]) * (v["days"] * 86400 + v["dt"])
         return {"C": C, "S": S, "y": y, "F": F}
 
+    def dur(env, v):
+        if env.symbolic:
+            return _TD(v["dt"], v["days"])
+        import datetime
+        return datetime.timedelta(days=int(v["days"]), seconds=float(v["dt"]))
+
     def pre(v):
-        # the square roots of the equation are defined where y > 0 (the solver's bracketing starts there)
-        return []
+        # transfer time = days * 86400 s + dt, 0 < dt < 86400 (the fields of a timedelta)
+        return [v["days"] >= 0, v["days"] <= 1000, v["dt"] < 86400]
     name = {1: "elliptic", 0: "parabolic", -1: "hyperbolic"}[sign]
     return Case(f"lambert/time_eq/{name}", ins, run, ref, pre=pre, timeout=120, tol=1e-9, abs_tol=1e-9,
                 desc=f"{name} branch: Stumpff C(z), S(z), y(z) = r0 + r1 + A (z S - 1)/sqrt(C) and F(z) = (y/C)^1.5 S + A sqrt(y) - sqrt(mu) dt")
